@@ -3,9 +3,11 @@
 # Uses a scratch worktree of /repo under /tmp (removed afterwards); /repo itself is never modified.
 cd "$(dirname "$0")/.."
 out=0
+shard=${1:-0}; nshards=${2:-1}; k=0          # tools/seed_regress.sh [shard nshards]: every nshards-th seed, starting at shard
 for d in seeded/*/; do
+  k=$((k+1)); [ $(( (k - 1) % nshards )) -ne "$shard" ] && continue
   id=$(basename "$d"); prop=$(python3 -c "import json,sys;print(json.load(open(sys.argv[1])).get('check_property') or sys.argv[2][:3])" "$d/meta.json" "$id")
-  wt=/tmp/seedreg_$id
+  wt=/tmp/seedreg_${shard}_$id
   git -C /repo worktree remove --force "$wt" >/dev/null 2>&1
   git -C /repo worktree add -f --detach "$wt" HEAD >/dev/null 2>&1
   if ! (cd "$wt" && git apply "/verif/$d/patch.diff" 2>/dev/null); then
